@@ -41,7 +41,7 @@ def run(ctx: Ctx) -> None:
     if getattr(ctx, "_depth", 0) >= 2:
         return  # alias of an alias: not followed (breaks import cycles between rule modules)
     repo = ctx.repo
-    ctx.rule("C09.R1", "the DATA payload handed to h2 comes from pop(n) with n = max(0, min(local_flow_control_window(stream_id), max_outbound_frame_size))", floor=4)
+    ctx.rule("C09.R1", "the DATA payload handed to h2 comes from pop(n) with n = max(0, min(local_flow_control_window(stream_id), max_outbound_frame_size))", floor=3)
     ctx.rule("C09.R2", "when nothing could be sent the stream is blocked in (or removed from) the priority tree before _send_data returns (no spinning)", floor=1)
     ctx.rule("C09.R3", "every priority.unblock(...) is followed on every normal path by has_data.set() (the send task is woken)", floor=4)
     ctx.rule("C09.R4", "send_task: between two waits on has_data the event is cleared and the priority tree re-consulted", floor=3)
@@ -66,19 +66,24 @@ def run(ctx: Ctx) -> None:
     pops = [c for c in calls(sd) if isinstance(c.func, ast.Attribute) and c.func.attr == "pop" and "stream_buffers" in norm(c.func)]
     ctx.need(len(pops) == 1, "expected exactly one stream_buffers[..].pop(..) in _send_data")
     n_expr = arg(pops[0], 0, "max_length")
-    pn = provenance(n_expr, sd)
-    ok = {"min()", "max()", "local_flow_control_window()"} <= pn.ops and "self.connection.max_outbound_frame_size" in pn.leaves and "const:0" in pn.leaves
-    ctx.check("C09.R1", w, "n <- max(0, min(window, frame size))", ok, f"pop length provenance {pn}", pops[0])
-    # the call that combines window and frame size must be min(); the clamp must be max(0, .)
-    combos = [c for c in calls(sd) if any(isinstance(a, ast.Call) and call_name(a) == "self.connection.local_flow_control_window" for a in c.args)]
-    ok = len(combos) == 1 and call_name(combos[0]) == "min" and any(norm(a) == "self.connection.max_outbound_frame_size" for a in combos[0].args) and len(combos[0].args) == 2
-    ctx.check("C09.R1", w, "min(local_flow_control_window(stream_id), max_outbound_frame_size)", ok, f"window/frame-size combination is {norm(combos[0]) if combos else 'missing'}", combos[0] if combos else sd)
+    from ..pred import eval_function as _evf9
+    from .common import value_slice as _vs9
+
+    try_bodies = [t_ for t_ in sd.body if isinstance(t_, ast.Try)]
+    body9 = try_bodies[0].body if try_bodies else sd.body
+    sl9 = _vs9(body9, lambda c_: c_ is pops[0], lambda c_: arg(c_, 0, "max_length"))
+    bad9 = None
+    for window, frame in ((-5, 16384), (0, 16384), (10, 16384), (16384, 16384), (100000, 16384), (100000, 20), (-1, 20)):
+        try:
+            got9 = _evf9(sl9, {"__lenient__": True, "stream_id": 1, "self.connection.max_outbound_frame_size": frame, "call:self.connection.local_flow_control_window": lambda sid_, w_=window: w_ if sid_ == 1 else "wrong stream"})
+        except Exception as error:
+            got9 = f"not evaluable: {error}"
+        if got9 != max(0, min(window, frame)):
+            bad9 = (window, frame, got9)
+            break
+    ctx.check("C09.R1", w, "n <- max(0, min(window, frame size)) (evaluated for windows -5..100000 and two frame sizes)", bad9 is None, "" if bad9 is None else f"stream window {bad9[0]}, max frame size {bad9[1]}: pop({bad9[2]}), expected pop({max(0, min(bad9[0], bad9[1]))}): a negative length slices from the end of the buffer and h2 raises FlowControlError; a length above the window or the frame size is refused by h2 and the stream's data is discarded", pops[0])
     wins = find_calls(sd, "self.connection.local_flow_control_window")
     ctx.check("C09.R1", w, "window of this stream", len(wins) == 1 and norm(arg(wins[0], 0)) == "stream_id", "local_flow_control_window must be asked for stream_id", wins[0] if wins else sd)
-    clamps = [c for c in calls(sd) if call_name(c) == "max" and any(isinstance(a, ast.Constant) and a.value == 0 for a in c.args)]
-    ok = len(clamps) == 1 and len(clamps[0].args) == 2
-    ctx.check("C09.R1", w, "clamp at zero (negative windows after SETTINGS)", ok, "a negative window must be clamped to 0 before pop(): pop(-n) slices from the end and h2 raises FlowControlError, which discards the stream's data", clamps[0] if clamps else sd)
-
     # R2
     cfg = CFG(sd)
     popn = [n for n in cfg.where(has_call("self.stream_buffers[].pop"))]
